@@ -58,6 +58,9 @@ func ensureAccumulator(pk *gabikeys.PublicKey, witness *revocation.Witness) erro
 	if witness == nil || witness.SignedAccumulator == nil {
 		return errors.New("nonrevocation witness has no accumulator")
 	}
+	if witness.U == nil || witness.E == nil {
+		return errors.New("incomplete nonrevocation witness")
+	}
 	// (under the lock that also guards the creation of the cache: several proofs may be started
 	// concurrently on a credential that was just read from storage)
 	nonrevCacheInit.Lock()
